@@ -130,9 +130,10 @@ structure Cfg where
       the peer's FIN); after `retx_threshold · (retx_max + 1)` passes it is aborted and reaped. -/
   fixFinWait2Timeout : Bool := false
   /-- F-C06-4 repair: zero-window persist probe. A sender with unsent data (or an unsent FIN), nothing in
-      flight and a zero peer window sends, every `retx_threshold` egress passes, its first unsent byte (or
-      the FIN) at `snd_nxt` without advancing `snd_nxt` (so the probe never counts toward `retx_max`);
-      `snd_max` covers the probe, so the peer's ACK is accepted if it had room after all. -/
+      flight and a zero peer window sends, every `retx_threshold` egress passes, an empty segment with
+      `seq = snd_una − 1`; the receiver answers an empty segment that lies before `rcv_nxt` (an old
+      duplicate, RFC 793 p.69) with its current ACK and window, sent from `snd_max`. Nothing is emitted
+      beyond the window, `snd_nxt` / `snd_max` and the retransmit counters are untouched. -/
   fixPersistProbe : Bool := false
   deriving DecidableEq, Repr, Inhabited
 
